@@ -40,6 +40,24 @@ CHECKS = {
     "emission (same start; line/column of the first span of its run), None only before any span. (c) BytecodeVM::build_stack_trace with up "
     "to 2 (3) trampoline frames looks up ip-1 in each frame's own chunk, innermost first, and emits exactly the frames whose lookup "
     "succeeds with that lookup's line/column. Whether the compiler sets the right span, parser/lexer spans and function names are outside.")),
+ 'C07': dict(design='section 3, C07', text=(
+    "Kernel claim: the save/restore round trip. BytecodeVM::save_state followed by BytecodeVM::from_saved_state is executed symbolically "
+    "on a lazily materialised VM (one register, call frame and scope, zero or one trampoline frame, symbolic numbers/handles): every field "
+    "of the VM and of the trampoline frame that carries program-visible state is compared before/after. Seven fields are lost today "
+    "(this_value, pending_completion, exception_value, saved_env_stack, current_constructor of the suspended frame; pending_completion and "
+    "exception_value of outer frames) - known findings, each with a program that shows the loss through the public API; any OTHER lost "
+    "field is a violation. Schedules, batching and promise combinators are outside the claim.")),
+ 'C09': dict(design='section 3, C09', text=(
+    "Kernel claim: request canonicalisation/deduplication only. Interpreter::dedupe_import_requests on up to 3 (4) requests with symbolic "
+    "resolved paths keeps exactly the first occurrence of each distinct path in order; Interpreter::collect_import_requests_internal on "
+    "programs of up to 2 (3) import/re-export/other statements yields one request per import or re-export, in order, resolved against "
+    "resolve_base (ModulePath::resolve uninterpreted here, decided by C18) and carrying the given importer. Evaluation order, exactly-once "
+    "execution and live bindings - the larger part of the property - are outside the claim.")),
+ 'C16': dict(design='section 3, C16', text=(
+    "Kernel claim: key canonicalisation only. For every string of up to 6 (11) bytes over {0-9,+,-,.,e,space}, PropertyKey::from_value and "
+    "the three Interpreter routes (property_key, property_key_from_js_string, property_key_from_value) return Index(i) exactly for the "
+    "canonical decimal spelling of i in [0,2^32-1] and otherwise String with unchanged content (no key is rewritten, keys are injective, "
+    "all routes agree); for every f64 the two number routes agree. serde_json, tree<->heap conversion, cycles and escapes are outside.")),
  'C08': dict(design='section 3, C08', text=(
     "Kernel claim: the ledger hand-over step. Interpreter::process_vm_result (every VmResult variant) and Interpreter::step entered with "
     "no active VM are executed symbolically on a lazily materialised Interpreter whose pending/cancelled order lists (any length), "
